@@ -97,12 +97,15 @@ def coq_makefile():
 
 
 def gen_hash():
+    """content hash of the generated tables AND of every hand-written source (objects cached for one set of hand-written
+    sources must never be restored over another)"""
     h = hashlib.sha256()
-    d = os.path.join(COQ, "Generated")
-    for f in sorted(os.listdir(d)):
-        if f.endswith(".v"):
-            h.update(f.encode())
-            h.update(open(os.path.join(d, f), "rb").read())
+    for dp, dn, fn in sorted(os.walk(COQ)):
+        dn.sort()
+        for f in sorted(fn):
+            if f.endswith(".v") or f == "_CoqProject":
+                h.update(os.path.relpath(os.path.join(dp, f), COQ).encode())
+                h.update(open(os.path.join(dp, f), "rb").read())
     return h.hexdigest()[:16]
 
 
